@@ -261,10 +261,13 @@ class _AsyncioReadWriteLock(ReadWriteLock):
                 await self._write_lock.acquire()
             self._counter += 1
 
-    async def _release_read(self) -> bool:
-        async with self._read_lock:
-            self._counter -= 1
-            return self._counter == 0
+    def _release_read(self) -> bool:
+        # Must not wait: a reader that is cancelled while it leaves would
+        # never be counted out. Nothing else can run between these two
+        # statements, and while readers are inside (counter above zero) no
+        # reader that enters waits with the counter lock held.
+        self._counter -= 1
+        return self._counter == 0
 
     @asynccontextmanager
     async def read_lock(self) -> AsyncIterator[None]:
@@ -272,7 +275,7 @@ class _AsyncioReadWriteLock(ReadWriteLock):
         try:
             yield
         finally:
-            if await self._release_read():
+            if self._release_read():
                 self._write_lock.release()
 
     @asynccontextmanager
